@@ -146,6 +146,8 @@ def check_single(C, s, scope, v, ex):
 
 def plan(tier, seed):
     shards = [{"mode": "single", "index": i, "count": 12} for i in range(12)]
+    # the single-call family again on the second basetype (its leaf strings may fit several types)
+    shards += [{"mode": "single", "index": i, "count": 6, "env": {"VERIF_C15_BASE": "1"}} for i in range(6)]
     pubs = 4
     shards += [{"mode": "bfs", "first": i} for i in range(pubs)]
     shards += [{"mode": "stateless", "index": i, "count": 4} for i in range(4)]
@@ -181,7 +183,12 @@ def run_shard(sh):
                     rec.case(cls, True, sample=[S1, S2, s])
                     for x in viols:
                         rec.violation(x["signature"], "single", [S1, S2, s, scope, v], x["observed"], x["expected"])
-        return rec.result()
+        res = rec.result()
+        if sh.get("env"):
+            for lst in res["violations"].values():
+                for x in lst:
+                    x["env"] = {"env": sh["env"]}         # confirmed on the same basetype
+        return res
     # ---- publishing histories
     from spil import Sid, WriteToPaths, SpilException
     depth = 8 if sh["tier"] == "thorough" else 6
